@@ -120,13 +120,17 @@ def W.flush (w : W) : W :=
   | .custom => w
   | _ => if w.isOpen then { w with dirty := false } else w
 
-/-- `writer.disconnect()`: closes (hence flushes) only a file it opened itself -/
+/-- `writer.disconnect()`: closes (hence flushes) a file it opened itself; a file object provided by
+    the caller is flushed and left open for its owner -/
 def W.disconnect (w : W) : W :=
   match w.kind with
   | .path =>
     if w.isOpen then { w with isOpen := false, dirty := false, closed := true, discs := w.discs + 1 }
     else { w with discs := w.discs + 1 }
-  | _ => { w with isOpen := false, discs := w.discs + 1 }
+  | .custom => { w with isOpen := false, discs := w.discs + 1 }
+  | _ =>
+    if w.isOpen then { w with isOpen := false, dirty := false, discs := w.discs + 1 }
+    else { w with discs := w.discs + 1 }
 
 /-! ### the builder's writer list -/
 
